@@ -173,6 +173,18 @@ def run(ctx):
         width = rng.choice([2, 3, 4, 6])
         trees.append(("depth3", W.random_tree(rng, 3, width), width))
 
+    # Pow nodes of the psd closure (C05_keval_psd_elementary_pow / C05_pow_node_psd): (k1 * k2 + c) ** n with stationary leaves,
+    # c >= 0 and a positive integer exponent; their Gram matrices go through the eigenvalue test below (support for the
+    # stationary leaves whose own positive semi-definiteness is a hypothesis)
+    stat = [b for b in W.BASES if b != "Linear"]
+    for _ in range(12 if T else 6):
+        width = rng.choice([2, 3, 5])
+        l1 = W.random_base(rng, width, name=rng.choice(stat), ad_kind="none")
+        l2 = W.random_base(rng, width, name=rng.choice(stat), ad_kind="none")
+        inner = W.Node("addc", W.make_ad("none", rng, width), left=W.Node("mul", W.make_ad("none", rng, width), left=l1, right=l2),
+                       c=float(rng.choice([0.0, 0.5, 2.0])))
+        trees.append(("powpsd", W.Node("pow", W.make_ad("none", rng, width), left=inner, c=float(rng.choice([2, 3, 4]))), width))
+
     psd_checked = 0
     for group, node, width in trees:
         X, Y = W.point_sets(rng, width)
@@ -234,7 +246,7 @@ def run(ctx):
                 if np.any(K < 0) or np.any(K > 1 + 4 * W.U):
                     ctx.violation("C05|range|%s" % node.name, "stationary kernel value outside [0,1]", dict(rp, x=X.tolist(), y=Y.tolist()))
         # PSD (support only for the stationary kernels; part of the property statement, so a clear failure is reported)
-        if group in ("base", "base25") or (group == "depth2" and node.op in ("add", "mul") and rng.random() < 0.2):
+        if group in ("base", "base25", "powpsd") or (group == "depth2" and node.op in ("add", "mul") and rng.random() < 0.2):
             P = np.vstack([X, Y])
             G = np.asarray(cov(jnp.asarray(P), jnp.asarray(P)))
             if np.all(np.isfinite(G)):
